@@ -117,6 +117,14 @@ void* v_buf(const char* name, size_t n)
 	return p;
 }
 
+/* exactly n addressable octets (ASan red zones on both sides); n == 0: none */
+void* v_alloc(size_t n)
+{
+	char* p = (char*)malloc(n ? n : 1);
+	if (g_nbufs < MAXIN) g_bufs[g_nbufs++] = p;
+	return n ? p : p + 1;
+}
+
 void v_skip(const char* cond)
 {
 	if (g_mode == 0)
@@ -170,6 +178,21 @@ void utilAssert(int e, const char* file, int line)
 void __asan_on_error(void)
 {
 	printf("FAIL obligation=\"memory safety (AddressSanitizer)\"\nINPUTS\n");
+	dump(stdout);
+	if (g_out)
+	{
+		FILE* f = fopen(g_out, "w");
+		if (f) { dump(f); fclose(f); }
+	}
+	fflush(stdout);
+}
+
+/* called by the UBSan run-time when it reports (same purpose) */
+void __ubsan_on_report(void)
+{
+	static int once;
+	if (once++) return;
+	printf("FAIL obligation=\"undefined behaviour (UBSan)\"\nINPUTS\n");
 	dump(stdout);
 	if (g_out)
 	{
